@@ -22,6 +22,7 @@ type PropertyConfig struct {
 	Carriers []string `json:"carriers"` // "pkgpath.Key"
 	Sweep    []string `json:"sweep"`    // package paths swept for safety obligations without contracts
 	Kinds    []string `json:"kinds"`    // obligation kinds that count (empty: all)
+	Facets   []string `json:"facets"`   // the carriers are verified once per facet, keeping the clauses tagged `only <id>.<facet>` of that facet
 	Trusted  []string `json:"trusted_base"`
 	Scenario string   `json:"scenario"`
 }
@@ -88,6 +89,7 @@ type funcReport struct {
 	Paths       int      `json:"paths"`
 	OutOfSubset string   `json:"out_of_subset,omitempty"`
 	Notes       []string `json:"notes,omitempty"`
+	obls        []*Obligation
 }
 
 func cmdVerify(args []string) int {
@@ -194,13 +196,30 @@ func (r *Run) execute() int {
 			r.violations++
 			return 1
 		}
+		r.engines = append(r.engines, e)
+	}
+	facets := r.prop.Facets
+	if len(facets) == 0 {
+		facets = []string{""}
+	}
+	for _, facet := range facets {
+		if code := r.executeFacet(facet); code != 0 {
+			return code
+		}
+	}
+	return r.finish(outDir)
+}
+
+// executeFacet generates the obligations of all carriers with the contracts scoped to one facet of the property.
+func (r *Run) executeFacet(facet string) int {
+	for _, e := range r.engines {
 		if err := e.loadContracts(filepath.Join(r.verif, "contracts", "external.gocv")); err != nil {
 			fmt.Fprintln(os.Stderr, "contracts:", err)
 			fmt.Printf("VIOLATION property=%s replay=%s no-failing-input-found\n", r.prop.ID, r.writeBuildFailure(err))
 			r.violations++
 			return 1
 		}
-		r.engines = append(r.engines, e)
+		e.contracts.scopeTo(r.prop.ID, facet)
 	}
 	// carriers
 	done := map[string]bool{}
@@ -294,27 +313,40 @@ func (r *Run) execute() int {
 				keep = append(keep, o)
 			}
 		}
-		rep.Obligations = len(keep)
+		if facet != "" {
+			for _, o := range keep {
+				o.Name += "~" + facet
+			}
+			rep.Key += " [" + facet + "]"
+		}
+		rep.Obligations = 0
+		for _, o := range keep {
+			if !o.Cover {
+				rep.Obligations++
+			}
+		}
+		rep.obls = keep
 		r.obls = append(r.obls, keep...)
 		r.reports = append(r.reports, rep)
 	}
 	if len(r.prop.Sweep) > 0 && len(r.prop.Kinds) == 0 {
 		r.recursionCheck(todoFuncs(todo))
 	}
+	return 0
+}
+
+// finish discharges the obligations of all facets and reports.
+func (r *Run) finish(outDir string) int {
 	discharge(r.obls, solveOpts{outDir: outDir, timeoutS: r.timeout, all: r.tier == "thorough", jobs: 16, seed: r.seed})
 	// results
-	byFunc := map[string]int{}
-	for _, o := range r.obls {
-		if o.ok() {
-			byFunc[o.Func]++
-		}
-	}
 	for i := range r.reports {
-		for _, u := range r.units {
-			if strings.HasSuffix(r.reports[i].Key, strings.TrimPrefix(u.key, strings.SplitN(u.key, ".", 2)[0]+".")) && u.fn != nil && r.reports[i].Key == funcPkgPath(u.fn)+"."+funcKey(u.fn) {
-				r.reports[i].Discharged = byFunc[u.key]
+		n := 0
+		for _, o := range r.reports[i].obls {
+			if o.ok() && !o.Cover {
+				n++
 			}
 		}
+		r.reports[i].Discharged = n
 	}
 	kf := loadKnownFindings(filepath.Join(r.verif, "known-findings.txt"))
 	sort.Slice(r.obls, func(i, j int) bool { return r.obls[i].Name < r.obls[j].Name })
